@@ -188,9 +188,16 @@ RuleWellFormed(Z) ==
                         lo2 == IF s2 < e2 THEN s2 ELSE e2
                     IN  lo2 - hi > 2 * j
 SeamWellFormed(Z) ==
-  Z.rule.kind # "dst" \/ Z.n = 0 \/
-  LET nx == NextRuleChange(Z, LastAt(Z)) IN
-  (W(Abs(Jump(Z, Z.n)) + Abs(Z.rule.dstT.off - Z.rule.stdT.off))) \prec (nx \ominus LastAt(Z))
+  Z.rule.kind # "dst" \/
+  LET la == LastAt(Z)
+      C == RuleCtx(Z, UtcYear(la))
+      v == {i \in 1..Len(C.seq) : la \prec C.seq[i].at}
+      i1 == CHOOSE i \in v : \A j \in v : i <= j                      \* the first rule instant after the data
+      jumpIn == IF Z.n = 0 THEN 0 ELSE Abs(Jump(Z, Z.n))
+      jump1 == Abs(C.seq[i1].T.off - LastType(Z).off)                 \* the jump there starts from the last recorded type
+      jump2 == Abs(Z.rule.dstT.off - Z.rule.stdT.off)
+  IN  /\ W(jumpIn + jump1) \prec (C.seq[i1].at \ominus la)
+      /\ (i1 + 1 <= Len(C.seq)) => W(jump1 + jump2) \prec (C.seq[i1 + 1].at \ominus C.seq[i1].at)
 \* the footer agrees with the recorded data (what "consistent" means for std-only / all-year footers)
 FooterConsistent(Z) ==
   CASE Z.rule.kind = "none" -> TRUE
